@@ -179,6 +179,43 @@ def degenerate_to_deterministic(m):
     return mm
 
 
+def deterministic_to_degenerate(m, names=("next_r", "next_q")):
+    """The inverse rewriting for table-valued deterministic transitions of discrete states (the filter-restricted states r, q of
+    the generator): the transition becomes a stochastic one whose rows are one-hot at the table's label.  Every other label --
+    filter-excluded states included -- is a node of probability zero."""
+    import itertools
+
+    mm = copy.deepcopy(m)
+    size = {v["name"]: v["n"] for v in mm["vars"]}
+    done = False
+    for f in mm["funcs"]:
+        if f["kind"] != "next" or f["name"] not in names or f["expr"][0] != "tab" or mm["params"].get(f["name"]):
+            continue
+        st = f["name"][5:]
+        tvars, tab = f["expr"][1], f["expr"][2]
+        if set(tvars) != set(f["args"]):
+            continue
+        dims = [mm["T"] if a == "_period" else size[a] for a in f["args"]]
+
+        def label(idx, tvars=tvars, tab=tab, args=f["args"]):
+            x = tab
+            for tv in tvars:
+                x = x[idx[args.index(tv)]]
+            return x[0] // x[1]
+
+        def rec(prefix, depth, dims=dims, n=size[st], label=label):
+            if depth == len(dims):
+                lab = label(prefix)
+                return [q(1) if k == lab else q(0) for k in range(n)]
+            return [rec([*prefix, i], depth + 1) for i in range(dims[depth])]
+        mm["params"].setdefault("shocks", {})[st] = rec([], 0)
+        f["kind"] = "stoch"
+        f["state"] = st
+        f["expr"] = const(0)
+        done = True
+    return mm if done else None
+
+
 # ----------------------------------------------------------------------------- driver
 def _solve(m, jit, coarse=False):
     import numpy as np
